@@ -73,6 +73,14 @@ def handle (op : String) (args : List String) : Option String :=
         | .other _ => .error .ValueError
       some (Py.showR (fun (r : List (Str × Option Zone)) => "[" ++ ",".intercalate (r.map (fun p => hexL p.1 ++ "/" ++ showZone p.2)) ++ "]")
         (Gen.rrsParseDateValue parse v.toList ps d k))
+  | "rrsgen.dispatch", [ls] => do
+      -- the translated body of `for line in lines:` folded over the given lines, from empty lists and no start
+      let lines ← parseStrList? ls
+      let showDV := fun (d : RRuleStr.DateV) => hexL d.1 ++ "|" ++ hexL (RRuleStr.intercalate [';'] d.2.1)
+      some (Py.showR (fun (a : RRuleStr.Acc) =>
+          s!"{showStrList a.rrulevals} {showStrList a.rdatevals} {showStrList a.exrulevals} [{",".intercalate (a.exdatevals.map showDV)}] " ++
+          (match a.dtstart with | some d => showDV d | none => "-"))
+        (lines.foldlM (Gen.rrsStepLine {}) {}))
   | "rrsgen.attach", [a, b] => do
       let a ← parseZone? a
       let b ← parseZone? b
